@@ -549,6 +549,7 @@ func runC03(c *Check) {
 	c.ruleParallelListsAligned("R17")
 	c.ruleParentFetchedPerInput("R18")
 	c.ruleHandOverBlocks("R19")
+	c.ruleSpentOutputIsParentsOutput("R21")
 	c.ruleWiring("R20", c.constructorsIn("handlers", "spynode"))
 	c.ruleFlagOnlyFromCall("R14", "spynode.(*Node).ProcessBlock", "(*state.MemPool).RemoveTransaction", "in-mempool-flag",
 		"the in-mempool classification of a block tx is constant true where the mempool is not consulted (node not ready): every tx of a block processed before the node is ready is skipped as already seen, so relevant txs in those blocks are never delivered")
